@@ -52,3 +52,9 @@ impl GenCounter {
 
 pub uninterp spec fn spec_hash(e: Seq<f32>) -> u64;
 pub open spec fn qkey(scope: u64, q: Seq<f32>) -> QueryCacheKey { QueryCacheKey { scope, query_hash: spec_hash(q) } }
+
+//@trusted [T]::to_vec clones element-wise; derive(Clone) on SearchResult {u64, f32} yields an equal value (axiom_search_result_cloned)
+pub assume_specification<T: Clone>[<[T]>::to_vec](s: &[T]) -> (r: Vec<T>)
+    ensures r@.len() == s@.len(), forall|i: int| 0 <= i < s@.len() ==> cloned(#[trigger] s@[i], r@[i]);
+#[verifier::external_body] pub broadcast proof fn axiom_search_result_cloned(a: SearchResult, b: SearchResult)
+    ensures #[trigger] cloned(a, b) ==> a == b {}
